@@ -296,6 +296,17 @@ class VerifMixedKeysContextProcessor(ContextProcessor):
         self._notify_context_update("a", "A")
 
 
+class VerifSortInPlaceContextProcessor(ContextProcessor):
+    """User code that sorts the list it finds under `t_values` IN PLACE (descending) and writes nothing."""
+
+    @classmethod
+    def context_keys(cls):
+        return []
+
+    def _process_logic(self, t_values):
+        t_values.sort(reverse=True)
+
+
 def _nested(depth, leaf):
     v = [leaf]
     for _ in range(depth):
